@@ -97,7 +97,7 @@ Proof. exact pchunk_prefix. Qed.
 Print Assumptions C02_pchunk_prefix.
 
 (* The collector rule before the "fix:" commit (stop at the first worker that reached end of
-   stream) is refuted by a concrete 635-step schedule on a 4564-byte all-zero file with 12 workers:
+   stream) is refuted by a concrete 739-step schedule on a 4564-byte all-zero file with 12 workers:
    the collector reports done with fewer chunks than the single-stream index and without
    covering the file. *)
 Theorem C02_pchunk_eof_break_refuted :
